@@ -182,7 +182,7 @@ pub(super) fn gen_op(g: &mut Gen<'_>, v: usize) -> bool {
 
 /// One hand-off history.  `spare`: the case starts with `new_arena` (a0 = a spare arena the probes can
 /// swap through; the hand-off arena then is a1).
-fn handoff(head: usize, body: usize, kind: &str, push_first: bool, own: bool, spare: bool, pat: usize) -> Vec<String> {
+fn handoff(head: usize, body: usize, kind: &str, push_first: bool, own: bool, spare: bool, pat: usize, two: bool) -> Vec<String> {
     let s = |x: &str| x.to_string();
     let a = if spare { 1 } else { 0 };
     let mut c: Vec<String> = Vec::new();
@@ -209,10 +209,18 @@ fn handoff(head: usize, body: usize, kind: &str, push_first: bool, own: bool, sp
         }
     }
     c.push(format!("register v0 {}", to_hex(&vec![0x3fu8; pat])));
+    if two {
+        // a second placeholder in the same slice, filled after the first
+        c.push(s("register v0 2e"));
+    }
     c.push(s("stable v0 -"));
     c.push(s("read v0 2"));
     c.push(format!("backfill v0 b0 {}", pay(0xa0, pat)));
     c.push(s("iter v0"));
+    if two {
+        c.push(s("read v0 2000"));
+        c.push(s("backfill v0 b1 b7"));
+    }
     c.push(s("read v0 2000"));
     c
 }
@@ -278,16 +286,19 @@ pub(super) fn enumerated_cases(thorough: bool, older: &[Vec<String>]) -> Vec<Vec
         for &body in bodies {
             for kind in ["push_sraw_borrowed", "push_sraw"] {
                 for push_first in [true, false] {
-                    bases.push((handoff(head, body, kind, push_first, false, false, 2), false));
+                    bases.push((handoff(head, body, kind, push_first, false, false, 2, false), false));
                     if thorough {
-                        bases.push((handoff(head, body, kind, push_first, false, false, 8), false));
+                        bases.push((handoff(head, body, kind, push_first, false, false, 8, false), false));
                     }
                     if thorough || (head == 4 && body == 4) {
-                        bases.push((handoff(head, body, kind, push_first, false, true, 2), true));
+                        bases.push((handoff(head, body, kind, push_first, false, true, 2, false), true));
+                    }
+                    if push_first && (thorough || head == 4) {
+                        bases.push((handoff(head, body, kind, push_first, false, false, 2, true), false));
                     }
                 }
                 if thorough || head == 4 {
-                    bases.push((handoff(head, body, kind, true, true, false, 2), false));
+                    bases.push((handoff(head, body, kind, true, true, false, 2, false), false));
                 }
             }
         }
